@@ -49,8 +49,20 @@ impl<Block> BlockTree<Block> {
 //@end
 }
 
+// [trusted:stand-in] the block bodies (blocks_cache.rs: `Rc<RefCell<Box<dyn BlocksCache>>>`, ONE instance shared by every CachedBlock of
+// the tree — the field `cache` that R3 drops from CachedBlock points to it): the set of hashes whose body is stored. R7: it is passed
+// explicitly as the field `vp_bodies` of the unstable blocks. `remove` follows the trait's documented contract (blocks_cache.rs:13):
+// "true if the removal is successful, false if it does not exist"
+struct BodiesCache { hashes: Ghost<Set<BlockHash>>, _p: u8 }
+impl BodiesCache {
+    #[verifier::external_body]
+    fn remove(&mut self, block_hash: &BlockHash) -> (r: bool)
+        ensures r == old(self).hashes@.contains(*block_hash), final(self).hashes@ == old(self).hashes@.remove(*block_hash),
+    { unimplemented!() }
+}
 //@extract file=canister/src/unstable_blocks.rs item="struct GenericUnstableBlocks"
 //@ rewrite R2? "#\[derive\(([^\]]*)\)\]" => ""
+//@ rewrite R7 "(tip_depths_cache: Vec<usize>,)" => "\1\n    vp_bodies: BodiesCache,"
 //@end
 //@extract file=canister/src/unstable_blocks.rs item="type UnstableBlocks"
 //@end
